@@ -71,6 +71,7 @@ type RuleCtx struct {
 	r6Cleanup  map[*ssa.Call]acquirerInfo // scratch of R6: acquisition calls that also hand back a cleanup closure
 	r6Fail     map[*ssa.Function]uint64   // scratch of R6: what a delegate has certainly done when it returns an error
 	r6FailFlag map[*ssa.Function]bool     // delegates that may leave the owner marked committed although they report a failure
+	r6Flushes  map[*ssa.Function]bool     // delegates that flush the buffered writer they are handed next to the file
 	p          *Program
 	rule       *Rule
 	obs        []Obligation
